@@ -525,7 +525,12 @@ func (r *Router) processChunks() (time.Duration, error) { //nolint:cyclop
 		// Pass it to the parent via NAT
 		toParent, err := r.nat.translateOutbound(chunk)
 		if err != nil {
-			return 0, err
+			// The NAT cannot translate this chunk (e.g. no port left for a new mapping).
+			// Drop it; returning here would end the routing loop and silently lose every
+			// later chunk, including those of established mappings.
+			r.log.Warnf("[%s] %s", r.name, err.Error())
+
+			continue
 		}
 
 		if toParent == nil {
